@@ -339,10 +339,11 @@ func TestC01(t *testing.T) {
 			concurrentDenied(t, r, dir, i)
 		}
 		concurrentPeers(t, r, dir)
+		manyCallers(t, r, dir)
 		sameLoginOtherGrants(t, r, dir)
 		denialWithFlakyAudit(t, r, dir)
 	}
-	r.Require("version_counter_probes", "overlapping_requests_same_login_other_grants", "denied_calls_with_flaky_audit", "rule_changes_mid_case", "concurrent_peer_replies", "concurrent_denied_calls", "cases", "http_cases_with_spoofed_identity_headers", "allowed_calls", "denied_calls", "denied_on_existing", "denied_on_absent")
+	r.Require("decisions_in_a_long_lived_server", "version_counter_probes", "overlapping_requests_same_login_other_grants", "denied_calls_with_flaky_audit", "rule_changes_mid_case", "concurrent_peer_replies", "concurrent_denied_calls", "cases", "http_cases_with_spoofed_identity_headers", "allowed_calls", "denied_calls", "denied_on_existing", "denied_on_absent")
 	r.Rule("case = (database state reached by 4-13 random superuser operations over a hostile 12-name pool incl. empty, reserved, newline, literal-'*' and path-like ('a/../b', 'a//b', 'a/b/') names; 0-3 random rules over the 5 actions (+unknown ones) and 23 exact/wildcard/regexp-meta patterns); then all 9 operations x all 8 names x versions {0,1,2,9} in random order, at the DB API and through the HTTP handlers. Distinct = (level, operation, authorised?, secret exists?, model outcome class, rule count)")
 }
 
@@ -647,4 +648,49 @@ func (s *onceFailingSink) Sync() error {
 		return errors.New("injected: audit log fsync failed")
 	}
 	return nil
+}
+
+// manyCallers: ONE server process serves hundreds of callers, each with a pattern of its own, for a long time;
+// early callers come back after many others have been served. Each decision is still made on the caller's own
+// rules (whatever the server may have remembered about patterns it saw before).
+func manyCallers(t *testing.T, r *evid.Run, dir string) {
+	d, err := realdb.Open(filepath.Join(dir, "many.db"), realdb.DummyKey("c01m"))
+	if err != nil {
+		t.Fatal(err)
+	}
+	su := realdb.Super()
+	rng := r.Rand(50505)
+	const N = 220
+	vals := make([][]byte, N)
+	for i := 0; i < N; i++ {
+		vals[i] = marker(rng)
+		d.Put(su, fmt.Sprintf("team-%d/key", i), vals[i])
+	}
+	callers := make([]db.Caller, N)
+	for i := range callers {
+		callers[i] = realdb.Caller(fmt.Sprintf("team-%d@verif", i), []refmodel.Rule{{Actions: []string{"get", "info"}, Patterns: []string{fmt.Sprintf("team-%d/*", i)}}})
+	}
+	for pass := 0; pass < 3; pass++ {
+		for i := 0; i < N; i++ {
+			own := ops.ApplyReal(d, callers[i], ops.Op{Kind: ops.Get, Name: fmt.Sprintf("team-%d/key", i)})
+			j := (i + 1 + rng.IntN(N-1)) % N
+			other := ops.ApplyReal(d, callers[i], ops.Op{Kind: []ops.Kind{ops.Get, ops.Info, ops.GetVer}[rng.IntN(3)], Name: fmt.Sprintf("team-%d/key", j), Version: 1})
+			r.Eval(1)
+			r.Count("decisions_in_a_long_lived_server", 2)
+			if own.Class != refmodel.OK || own.Bytes != string(vals[i]) {
+				r.Violation("db-authorised-call-refused", -1, fmt.Sprintf("long-lived server, pass %d: caller %d (pattern team-%d/*) asks for its own secret: %s", pass, i, i, own), nil)
+				return
+			}
+			if other.Class != refmodel.Denied || other.HasVal || other.Meta != "" {
+				r.Violation("db-unauthorised-call-succeeded", -1, fmt.Sprintf("long-lived server, pass %d (after %d other callers with other patterns were served): caller %d (pattern team-%d/*) asks about team-%d/key: %s", pass, pass*N+i, i, i, j, other), nil)
+				return
+			}
+		}
+		// a listing too
+		if l, err := d.List(callers[pass]); err != nil || len(l) != 1 || l[0].Name != fmt.Sprintf("team-%d/key", pass) {
+			r.Violation("db-result-differs", -1, fmt.Sprintf("long-lived server: caller %d lists %v (err %v)", pass, l, err), nil)
+			return
+		}
+	}
+	r.Distinct("long-lived server, many callers")
 }
